@@ -73,6 +73,19 @@ Theorem C17_data_corruption_keeps_table : forall a d', wf a -> length d' = lengt
 Proof. exact data_corruption_table. Qed.
 Print Assumptions C17_data_corruption_keeps_table.
 
+(* ... and an entry whose own bytes are still at their place reads back exactly as stored, whatever happened to the bytes of
+   the other entries: damage stays local, an exposed entry that was not hit is intact. *)
+Theorem C17_data_corruption_intact_entry : forall ps pre e post d',
+  let a := {| props := ps; entries := pre ++ e :: post |} in
+  wf a -> length d' = length (flat_map edata (entries a)) ->
+  Forall (fun x => eqbl (ename x) (ename e) = false) pre ->
+  slice d' (len (flat_map edata pre)) (len (edata e)) = edata e ->
+  let L := pack a in
+  let L' := firstn (length L - length d') L ++ d' in
+  exists p', open L' = Some p' /\ read_entry L' p' (ename e) = Some (edata e).
+Proof. exact data_corruption_intact_entry. Qed.
+Print Assumptions C17_data_corruption_intact_entry.
+
 (* non-vacuity: a concrete two-entry archive with a property meets wf and reads back *)
 Definition ex_archive : archive :=
   {| props := [([112;114;101;102;105;120], [120;92;121])];
